@@ -182,3 +182,33 @@ def r4(prog, rep, am: AliasModel):
                 rep.violation("C18.R4", key, f"get_solution mutates the cached solution object: {sites[0].text}", sites[0].loc)
             else:
                 rep.ok("C18.R4", key, "cached solution object is not mutated by the getter", gs.loc())
+
+
+def class_inputs_not_mutated(prog: Program, rep, RID: str, classes, params=("elements_to_ignore", "optimization_options", "subpath_constraints",
+                                                                           "subset_constraints", "error_scaling", "additional_starts", "additional_ends")):
+    """C18.R1/R2 restricted to the named classes and parameters: the object the caller passed (or the shared mutable default) is not
+    written by the constructor or, through a self attribute that aliases it, by any method of the class."""
+    am = AliasModel(prog)
+    for cname in classes:
+        cls = prog.cls(cname)
+        init = prog.own_method(cname, "__init__")
+        s_ = am.get(init)
+        holders = am.attr_holders(cls)
+        meths = {}
+        for c in reversed(prog.mro(cls)):
+            for name, f in c.methods.items():
+                meths[name] = f
+        for p_ in params:
+            if p_ not in init.params:
+                continue
+            key = f"{cname}({p_})"
+            sites = list(s_.mutates.get(p_, []))
+            for attr, hs in holders.items():
+                if (init.qualname, p_) in hs:
+                    for name, f in meths.items():
+                        sites += am.get(f).attr_mut.get(attr, [])
+            if sites:
+                rep.violation(RID, key, f"the caller's `{p_}` object (or its shared default) may be written: {sites[0].text} [{sites[0].kind}] in {sites[0].func} - "
+                              "what one model adds is seen by every later model that receives the same object", sites[0].loc)
+            else:
+                rep.ok(RID, key, "never written (alias/effect analysis)", init.loc(), sample={"class": cname, "param": p_})
